@@ -17,13 +17,15 @@ pub fn gen(rng: &mut Rng, _k: usize, _tier: &str) -> J {
     for u in 0..n_units { let spread = if rng.chance(1, 5) { n_keys } else { rng.range(1, 2) };
         for _ in 0..spread { let k = if rng.chance(1, 6) { 10 + rng.range(0, 3) } else { rng.below(n_keys as u64) as i64 }; for _ in 0..rng.range(1, 2) { rows.push(json!([u, k, rng.range(0, 40) as f64 * 0.5])); } } }
     json!({"rows": rows, "sql": *rng.pick(&["SELECT key AS k0, sum(amt) AS c FROM v GROUP BY key", "SELECT key AS k0, count(amt) AS c FROM v GROUP BY key", "SELECT key AS k0 FROM v GROUP BY key", "SELECT DISTINCT key AS k0 FROM v"]),
-           "eps": *rng.pick(&[2.0, 5.0, 20.0, 200.0]), "delta": *rng.pick(&[0.1, 0.3, 0.45]), "share": *rng.pick(&[0.5, 0.9]), "groups": *rng.pick(&[1u64, 2, 3, 6]), "hash": rng.chance(1, 2)})
+           "eps": *rng.pick(&[2.0, 5.0, 20.0, 200.0]), "delta": *rng.pick(&[0.1, 0.3, 0.45]), "share": *rng.pick(&[0.5, 0.9]), "groups": *rng.pick(&[1u64, 2, 3, 6]), "hash": rng.chance(1, 2),
+           // the unit column declared by the list of its possible values (a finite set) instead of a range
+           "uid_values": rng.chance(1, 3)})
 }
 
 pub fn eval(case: &J) -> Outcome {
     let mut out = Outcome::new();
     let sql = case["sql"].as_str().unwrap();
-    let table: Relation = Relation::table().name("v").schema(vec![("uid", DataType::integer_interval(0, 100)), ("key", DataType::integer_interval(0, 20)), ("amt", DataType::float_interval(0., 20.))].into_iter().collect::<qrlew::relation::Schema>()).size(1000).build();
+    let table: Relation = Relation::table().name("v").schema(vec![("uid", if case["uid_values"] == true { DataType::integer_values((0..16).collect::<Vec<i64>>()) } else { DataType::integer_interval(0, 100) }), ("key", DataType::integer_interval(0, 20)), ("amt", DataType::float_interval(0., 20.))].into_iter().collect::<qrlew::relation::Schema>()).size(1000).build();
     let rels: Hierarchy<Arc<Relation>> = vec![(vec!["v".to_string()], Arc::new(table))].into_iter().collect();
     let rel = match guarded(|| { let q = parse(sql).map_err(|e| e.to_string())?; Relation::try_from(QueryWithRelations::new(&q, &rels)).map_err(|e| e.to_string()) }) { Ok(Ok(r)) => r, _ => { out.tag("trivial"); return out; } };
     let pu = PrivacyUnit::from((vec![("v", vec![], "uid")], case["hash"].as_bool().unwrap_or(true)));
@@ -33,9 +35,18 @@ pub fn eval(case: &J) -> Outcome {
         Ok(Ok(d)) => d, Ok(Err(_)) => { out.tag("trivial"); out.tag("dp-err"); return out; }
         Err((loc, msg)) => { out.tag("trivial"); out.fail(&format!("C18/taukeys/rewrite-panic/{}", site(&loc, &msg)), format!("{sql}: {msg}")); return out; } };
     let facts = ir::facts(dp.relation());
-    let Some((_, tau, strict)) = facts.taus.first().cloned() else { out.tag("trivial"); out.fail("C02/exec/private-key-released-without-threshold", format!("{sql}: the rewritten query has no threshold on the number of privacy units per key")); return out; };
-    if facts.taus.len() != 1 { out.tag("several-thresholds"); }
     let rows: Vec<Vec<Cell>> = case["rows"].as_array().unwrap().iter().map(|r| vec![Cell::Int(r[0].as_i64().unwrap()), Cell::Int(r[1].as_i64().unwrap()), Cell::Real(r[2].as_f64().unwrap())]).collect();
+    let Some((_, tau, strict)) = facts.taus.first().cloned() else {
+        // no threshold anywhere although the key is private-valued: whatever is released is released on the strength of the data alone
+        out.tag("no-threshold");
+        let db = crate::exec::Db::new(RandomMode::Const(1.0));
+        db.create_table("v", &["uid", "key", "amt"], &rows);
+        if let Ok((names, res)) = db.run(dp.relation()) { if let Some(ki) = names.iter().position(|n| n == "k0") {
+            for r in &res { if let Some(k) = r[ki].as_f64() { let n = { let mut u: Vec<i64> = rows.iter().filter(|x| x[1] == Cell::Int(k as i64)).filter_map(|x| x[0].as_f64().map(|y| y as i64)).collect(); u.sort(); u.dedup(); u.len() };
+                if n <= 1 { out.fail("C04/taukeys/singleton-released-without-threshold", format!("{sql} with {:?}: the rewritten query has no threshold on the number of privacy units per key and releases the key {k}, held by {n} privacy unit (rows {})", p, case["rows"]));
+                            out.fail("C02/exec/private-key-released-without-threshold", format!("{sql}: key {k} held by one unit is released without any threshold")); break; } } } } }
+        return out; };
+    if facts.taus.len() != 1 { out.tag("several-thresholds"); }
     let db = crate::exec::Db::new(RandomMode::Const(1.0)); // ln(1) = 0: the count noise is exactly 0; all contribution ranks tie
     db.create_table("v", &["uid", "key", "amt"], &rows);
     match db.run(dp.relation()) {
